@@ -188,7 +188,8 @@ CLAIMS = {
           "is started finds all older requests of its tag gone from the table — preserved by every event of a Tflush-free schedule, "
           "together with the uniqueness invariant W3 of the winning Respond): requests under one tag are handed to the implementation "
           "in arrival order, each only after its predecessor left the table, and answered in that order. Correspondence: subsets "
-          "parked in the implementation (also on a shared fid, another connection, late requests); shared-tag groups.",
+          "parked in the implementation (also on a shared fid, another connection, late requests); shared-tag groups; a Tflush aimed into a "
+          "shared-tag group (the cancelled member leaves the chain, later members still wait for the running one).",
   "note": TB + "The FIFO theorem is partial: sessions without Tflush (LS.plain, stated in the theorem); a Tflush aimed at a tag group cuts "
           "the chain (K-6) and is left to the correspondence. Real-time promptness is observed, not proved.",
  },
